@@ -17,7 +17,7 @@ enum { FI = 0, RBT = 1, RBGT = 2 };
 const char* const kind_names[] = { "find-information", "read-by-type", "read-by-group-type" };
 const std::uint8_t opcodes[] = { 0x04, 0x08, 0x10 };
 
-struct Case { int kind; std::uint16_t s, e; Type type; std::uint16_t mtu; };
+struct Case { int kind; std::uint16_t s, e; Type type; std::uint16_t mtu; bool near_base = false; };   // near_base: type is a near miss of a base UUID form
 
 struct Entry { std::uint16_t handle, end; Type type; };
 struct Resp
@@ -40,7 +40,7 @@ struct Checker
 
     std::string case_line( const Case& c ) const
     {
-        return mc::fmt( "case kind=%d s=%u e=%u mtu=%u type=%s", c.kind, c.s, c.e, c.mtu, mc::hex( c.type.b, c.type.n ).c_str() );
+        return mc::fmt( "case kind=%d s=%u e=%u mtu=%u near=%d type=%s", c.kind, c.s, c.e, c.mtu, int( c.near_base ), mc::hex( c.type.b, c.type.n ).c_str() );
     }
     std::string case_text( const Case& c ) const
     {
@@ -143,7 +143,7 @@ struct Checker
             if ( c.kind == FI && !( en.type.n == ( a->type128 ? 16 : 2 ) && memcmp( en.type.b, a->type, en.type.n ) == 0 ) )
                 return Fail{ mc::fmt( "type-mismatch:%s:%s", kn, ( a->flags & 1 ) ? "auto-uuid-characteristic" : "explicit-uuid" ), mc::fmt( "handle 0x%04x reported with type %s, declared type is %s", en.handle, en.type.str().c_str(), Type::of( *a ).str().c_str() ) + io };
             if ( c.kind != FI && !matches( c, *a ) )
-                return Fail{ mc::fmt( "type-mismatch:%s:%s", kn, kind_name( a->kind ) ),
+                return Fail{ mc::fmt( "type-mismatch:%s:%s", kn, c.near_base ? "near-miss-of-base-uuid" : kind_name( a->kind ) ),
                              mc::fmt( "handle 0x%04x (%s, type %s) returned for requested type %s", en.handle, kind_name( a->kind ), Type::of( *a ).str().c_str(), c.type.str().c_str() ) + io };
             if ( en.handle <= prev )
                 return Fail{ mc::fmt( "not-ascending:%s", kn ), mc::fmt( "handle 0x%04x follows 0x%04x", en.handle, prev ) + io };
@@ -256,8 +256,9 @@ struct Checker
 
 bool parse_case( const std::string& l, Case& c )
 {
-    unsigned kind, s, e, mtu; char type[ 64 ] = "";
-    if ( sscanf( l.c_str(), "case kind=%u s=%u e=%u mtu=%u type=%63s", &kind, &s, &e, &mtu, type ) < 4 ) return false;
+    unsigned kind, s, e, mtu, near = 0; char type[ 64 ] = "";
+    if ( sscanf( l.c_str(), "case kind=%u s=%u e=%u mtu=%u near=%u type=%63s", &kind, &s, &e, &mtu, &near, type ) < 5 ) return false;
+    c.near_base = near != 0;
     c.kind = int( kind ); c.s = std::uint16_t( s ); c.e = std::uint16_t( e ); c.mtu = std::uint16_t( mtu );
     auto b = mc::unhex( type );
     c.type = Type::raw( b.data(), b.size() );
@@ -325,22 +326,37 @@ int main( int argc, char** argv )
 
     bool cut = false;
     std::uint64_t n = 0;
-    for ( int kind = FI; kind <= RBGT && !cut; ++kind )
+    // near misses of the Bluetooth base UUID form: every 16 bit type of the database, expanded to 128 bit, with exactly one of the
+    // 16 octets changed (this includes the two octets above the 16 bit value and the 16 bit value itself). Asked with the default MTU only.
+    std::vector< Type > near_types;
+    for ( std::size_t i = 0; i != db.n_attrs; ++i )
+        if ( !db.attrs[ i ].type128 )
+            for ( int octet = 0; octet != 16; ++octet )
+            {
+                Type t = Type::of( db.attrs[ i ] ).expanded();
+                t.b[ octet ] ^= 0x12;
+                add_type( near_types, t );
+            }
+    const std::vector< std::uint16_t > default_mtu{ 23 };
+    rep.counters[ "read-by-type near-miss base UUID types" ] = near_types.size();
+
+    for ( int pass = FI; pass <= RBGT + 1 && !cut; ++pass )
     {
+        const int kind = pass == RBGT + 1 ? int( RBT ) : pass;
         if ( kind == RBGT && !with_rbgt ) continue;
         std::vector< Type > none{ Type::u16( 0 ) };
-        const std::vector< Type >& types = kind == FI ? none : kind == RBT ? rbt_types : rbgt_types;
+        const std::vector< Type >& types = pass == RBGT + 1 ? near_types : kind == FI ? none : kind == RBT ? rbt_types : rbgt_types;
         for ( auto& t : types )
-            for ( auto mtu : mtus )
+            for ( auto mtu : pass == RBGT + 1 ? default_mtu : mtus )
                 for ( auto s : hs )
                 {
                     for ( auto e : hs )
                     {
-                        Case c{ kind, s, e, t, mtu };
+                        Case c{ kind, s, e, t, mtu, pass == RBGT + 1 };
                         std::string outcome;
                         auto fails = ck.eval( c, &outcome );
                         ++rep.evaluations; ++n;
-                        rep.cls( ck.req_class( c ) + "->" + outcome );
+                        rep.cls( ck.req_class( c ) + ( pass == RBGT + 1 ? ":near-base-uuid" : "" ) + "->" + outcome );
                         for ( auto& f : fails )
                             rep.fail( f.sig + ck.suffix, ck.case_text( c ) + ": " + f.detail, { ck.case_line( c ) } );
                         if ( ( n % 9973 ) == 1 && fails.empty() && c.s && c.s <= c.e )
